@@ -10,6 +10,9 @@
 //!   drive <workdir> <seed> <n> <profile> <out.ndjson>
 //!                               direction B: seeded generator of real-size files + mutations;
 //!                               records one NDJSON event per file for DatafileTrace.tla
+//!   buffer-replay <workdir>     datafile::buffer::Buffer: reads DfBuffer cases (histories of add_item /
+//!                               add_data) from stdin, replays them, reads everything out, lays the
+//!                               content out and reads it back with the real readers
 //!   map-replay <workdir> <out.ndjson>
 //!                               map layer: reads MapGen cases from stdin, calls every accessor of
 //!                               map::Reader, records one event per case for MapTrace.tla
@@ -23,6 +26,7 @@ use std::io::{BufRead, Write};
 use std::path::{Path, PathBuf};
 use vh_common::{canon, guarded, last_panic_location};
 
+mod bufobs;
 mod mapobs;
 
 // ------------------------------------------------------------------ independent writer
@@ -698,6 +702,7 @@ fn main() {
         Some("replay-mem") => cmd_replay_mem(),
         Some("drive") => drive::cmd_drive(&args[2..]),
         Some("map-replay") => mapobs::cmd_map_replay(&args[2], &args[3]),
+        Some("buffer-replay") => bufobs::cmd_buffer_replay(&args[2]),
         _ => {
             eprintln!("usage: vh-datafile replay|replay-one|drive|map-replay ...");
             std::process::exit(2);
